@@ -77,6 +77,11 @@ func (in *Instance) Stop() {
 		return
 	}
 	s := in.s
+	// let whatever handler is in progress finish first: the harness must not create a shutdown race of its own
+	s.quiesce()
+	for _, f := range s.AfterStep {
+		f()
+	}
 	in.Store.Stop(nil)
 	in.running = false
 	// Run must return; give it simulated time, it has none to wait for
